@@ -1205,7 +1205,13 @@ def c18_reader_noise_and_compaction(tier, seed):
                                     rows + [{'kind': 'empty', 'text': '', 'clean': None, 'noise': 'empty'}],
                                     rows[:1] + [{'kind': 'whitespace', 'text': '  ', 'clean': None, 'noise': 'whitespace'}] + rows[1:],
                                     [_row_item(base[0], delim, 0, ' # note')] + rows[1:],
-                                    rows + [{'kind': 'short_row', 'text': j.join(('8', '9')), 'clean': None, 'noise': 'short_row'}]]
+                                    rows + [{'kind': 'short_row', 'text': j.join(('8', '9')), 'clean': None, 'noise': 'short_row'}],
+                                    # rows the parser of this format skips, carrying a timestamp-like last field that is distinct
+                                    # from (and smaller than some of) the real ones: they must not take a rank
+                                    rows[:1] + [{'kind': 'wrong_arity_row', 'text': j.join(('8', '9', '+', '-5', 'x') if fmt == 'interactions' else ('8', '9')),
+                                                 'clean': None, 'noise': 'wrong_arity_row'}] + rows[1:],
+                                    rows[:1] + [{'kind': 'three_field_row', 'text': j.join(('8', '9', '-6')), 'clean': None, 'noise': 'three_field_row'}] + rows[1:]
+                                    if fmt == 'interactions' else rows]
                         for items in variants:
                             col.seen(('keys', fmt, directed, delim, tuple(it['text'] for it in items)), len(base) >= 2)
                             _c18_keys(col, fmt, directed, delim, items)
